@@ -72,7 +72,7 @@ def run_for(prop: str, base: Model) -> Dict[str, Any]:
     from .variants import VARIANTS
 
     vs = [v for v in VARIANTS if v[0] == prop]
-    vs += [(prop, "twin-reformat", "<whole-repo-twin>", "reformat", "", None), (prop, "twin-rename-locals", "<whole-repo-twin>", "rename-locals", "", None), (prop, "twin-flip-comparisons", "<whole-repo-twin>", "flip-comparisons", "", None)]
+    vs += [(prop, "twin-" + k, "<whole-repo-twin>", k, "", None) for k in ("reformat", "rename-locals", "flip-comparisons", "insert-logging", "invert-if-else")]
     _BASE = base
     t0 = time.time()
     results: List[Dict[str, Any]] = []
